@@ -1,8 +1,112 @@
-"""C20 Metadata replicas converge, including via snapshot transfer (part 1: Metadata snapshot/restore; part 2: Raft adapter, see octfam)."""
-from . import c18
+"""C20 Metadata replicas converge, including via snapshot transfer.
+Part 1: Metadata snapshot/restore over the C18 exploration (harness/dw). Part 2: the Raft state-machine adapter
+(octopii/src/openraft/storage.rs MemStateMachine build_snapshot / install_snapshot, compiled unchanged in harness/oct) with
+octopii's own KvStateMachine as the application: generated command streams through adapter A, snapshot, install into adapter B
+(which may hold stale state), common suffix on both; application states compared as decoded maps."""
+import json
+from .. import common, dw
+from ..common import Report, Violation, pmap, rng_for, fingerprint
+from ..wsrv import Wsrv, Dead
+from . import c18, c21
+
+def transfer_task(t):
+    rng = rng_for(t['seed'], 'C20p2', t['idx'])
+    w = Wsrv(t['binary'], timeout=60)
+    out = []
+    try:
+        for j in range(t['n']):
+            keys = ['k%d' % i for i in range(rng.randint(1, 6))]
+            def cmds(n):
+                c = []
+                for _ in range(n):
+                    r = rng.random()
+                    if r < 0.65:
+                        c.append('SET %s v%d' % (rng.choice(keys), rng.randrange(1000)))
+                    elif r < 0.85:
+                        c.append('DELETE %s' % rng.choice(keys))
+                    elif r < 0.92:
+                        c.append(None)                       # blank entry
+                    else:
+                        c.append([1, 2, 3][:rng.randint(1, 3)])   # membership entry
+                return c
+            req = {'op': 'snapshot_transfer', 'cmds': cmds(rng.randint(0, 25)), 'suffix': cmds(rng.randint(0, 8)),
+                   'b_before': cmds(rng.choice([0, 0, 3]))}
+            r = w.send(req)
+            f = None
+            if not r.get('ok'):
+                f = {'cls': 'adapter-error', 'detail': r}
+            elif r['errors']:
+                f = {'cls': 'adapter-error', 'detail': r['errors']}
+            elif r['b_after_install'] != r['a_at_snapshot']:
+                f = {'cls': 'installed-state-differs', 'detail': {'sender': r['a_at_snapshot'], 'receiver': r['b_after_install'], 'snapshot_bytes': r['snapshot_bytes']}}
+            elif r['b_final'] != r['a_final']:
+                f = {'cls': 'diverged-after-common-suffix', 'detail': {'sender': r['a_final'], 'receiver': r['b_final']}}
+            elif not r['applied_equal'] or not r['membership_equal']:
+                f = {'cls': 'applied-state-differs', 'detail': {'applied_equal': r['applied_equal'], 'membership_equal': r['membership_equal']}}
+            out.append({'req': {k: req[k] for k in ('cmds', 'suffix', 'b_before')}, 'finding': f, 'nonempty': bool(r.get('a_at_snapshot')), 'j': j})
+    finally:
+        w.close()
+    return out
 
 def run(tier, seed, budget):
-    return c18.run(tier, seed, budget, prop='C20')
+    q = tier == 'quick'
+    rep = Report('C20', tier, seed, 'exploration')
+    rep.rule = c18.RULE_C20 + ('; part 2: %d generated transfers: 0-25 SET/DELETE/blank/membership entries applied through adapter A, build_snapshot, install_snapshot into adapter B '
+                               '(one third with stale pre-existing state), 0-8 common suffix entries on both; oracle: B\'s application state after install == A\'s at the snapshot, '
+                               'both equal after the suffix, applied log id and membership equal' % (600 if q else 20000))
+    rep.assumptions = [dw.STANDINS[1], 'part 1: metadata.rs compiled unchanged into harness/dw; states compared as decoded structures'] + c21.STANDINS[:1] + \
+                      ['part 2 uses octopii\'s KvStateMachine as the application behind the adapter (the adapter is generic over StateMachineTrait)']
+    binary = dw.build()
+    tasks = [{'kind': 'meta', 'binary': binary, 'depth': 4 if q else 5, 'nrandom': 100 if q else 500, 'seed': seed * 100 + 1, 'main': True}]
+    tasks += [{'kind': 'meta', 'binary': binary, 'depth': 2, 'nrandom': 400 if q else 3000, 'seed': seed * 100 + 2 + i} for i in range(4 if q else 15)]
+    octb = common.build('oct', 'debug')
+    tasks += [{'kind': 'xfer', 'binary': octb, 'seed': seed, 'idx': i, 'n': 50 if q else 1000} for i in range(12 if q else 20)]
+    states = 0
+    exhaustive = False
+    for t, res in pmap(lambda_task, tasks, budget_s=budget):
+        if isinstance(res, Exception):
+            rep.add_inconclusive(repr(res)); continue
+        if t['kind'] == 'meta':
+            rep.evaluations += res['snapshots_checked']
+            for k in ('transitions', 'random_sequences', 'snapshots_checked'):
+                rep.count(k, res[k])
+            if t.get('main'):
+                exhaustive = res['exhaustive']
+                states = res['distinct_states']
+                rep.count('distinct_states', states)
+                rep.extra['exhaustive_depth'] = res['depth']
+                for s in res['samples']:
+                    rep.samples.append({'part': 1, 'state_reached_by': s})
+            for v in res['c20_violation_samples']:
+                rep.add_violation(Violation('C20', v['cls'], v, ['part:1'], {'kind': 'meta', 'args': ['meta', t['depth'], t['nrandom'], t['seed']], 'case': v}))
+        else:
+            for c in res:
+                rep.add_case(fingerprint(['xfer', t['idx'], c['j']]), c['nonempty'], {'part': 2, **c['req']})
+                rep.count('snapshot_transfers')
+                if c['nonempty']:
+                    rep.count('transfers_with_nonempty_state')
+                if c['finding']:
+                    rep.add_violation(Violation('C20', c['finding']['cls'], c['finding']['detail'], ['part:2'],
+                                                {'kind': 'xfer', 'seed': t['seed'], 'idx': t['idx'], 'case': c['j'], 'request': c['req']}))
+    rep.distinct_measured = states + len(rep.nontrivial)
+    rep.required = {'snapshots_checked': 3000, 'distinct_states': 3000, 'snapshot_transfers': 300, 'transfers_with_nonempty_state': 200}
+    return rep.finish(exhaustive=False)
+
+def lambda_task(t):
+    return c18.task(t) if t['kind'] == 'meta' else transfer_task(t)
 
 def replay(path):
-    return c18.replay(path)
+    rp = json.load(open(path))
+    r = rp['replay']
+    if r['kind'] == 'meta':
+        return c18.replay(path)
+    binary = common.build('oct', 'debug')
+    w = Wsrv(binary, timeout=60)
+    try:
+        res = w.send({'op': 'snapshot_transfer', **r['request']})
+    finally:
+        w.close()
+    print(json.dumps(res, indent=1)[:3000])
+    hit = res.get('b_after_install') != res.get('a_at_snapshot') or res.get('b_final') != res.get('a_final')
+    print('REPRODUCED' if hit else 'NOT-REPRODUCED')
+    return 1 if hit else 0
